@@ -155,7 +155,7 @@ func funcKey(f *ssa.Function) string {
 	if f.Parent() != nil {
 		// anonymous: parentKey + "$n"
 		name := f.Name() // e.g. initPoolNode$1
-		i := strings.Index(name, "$")
+		i := strings.LastIndex(name, "$")
 		return funcKey(f.Parent()) + name[i:]
 	}
 	pkg := ""
